@@ -352,4 +352,11 @@ def mverdict (strict : Bool) (kinds : List (Bool × Kind)) (ids : List (Option N
       else lverdict1 strict k ((ids.getD j none)) {} (mprojectLeg j (steps.zip outs))
     | some (false, k) => verdict1 k ((ids.getD j none).getD 0) {} (mprojectCmd k ((ids.getD j none).getD 0) j false (steps.zip outs))
 
+/-! ### C13, the cleared-timer set: resource use is bounded by outstanding work -/
+
+/-- `cleared`: the case's timers whose id is in CLEARED_TIMER_IDS; `outstanding`: the timers that were started and whose
+    future has not completed. The set may only hold ids of outstanding timers (so its size is bounded by the outstanding
+    work, whatever the length of the history). -/
+def setBounded (cleared outstanding : List Nat) : Bool := cleared.all outstanding.contains
+
 end S.Timer
